@@ -12,7 +12,8 @@
     [g_life st n = LRet t r]: n was unlinked and retired by t with stamp r;  [g_uaf]: a dereference hit a destroyed node.
 
     PARTIAL: [Tinv] itself is not proved (it needs the full correctness argument of remove / update_tail_stamp with helping);
-    it was checked, together with the list invariants of the queue, on 10^8 random states of the extracted model. *)
+    it was checked, together with the list invariants of the queue, on the extracted model (ocaml/stamp_explore.ml: 1.4e8
+    random steps, exhaustive for small two-thread programs), no violation. *)
 From Coq Require Import NArith List.
 From XV Require Import Conc.Lts Conc.Ev Model.StampDefs Proof.StampBase Proof.StampNodes Proof.StampStamps Proof.StampOrder Proof.StampGuards Proof.StampInv Proof.StampFlush.
 Import ListNotations.
